@@ -20,6 +20,7 @@ type instOpts struct {
 	skew   bool // large powers plus dust members with zero scaled power
 	huge   int  // > 0: byte-scale raw powers, the table's total has this many bits and one puppet holds 50-75 % of it
 	supp   func(cur gpbft.PowerEntries) gpbft.SupplementalData
+	queued bool // messages arrive before the start alarm fires: beginInstance drains the participant's queue (ReceiveMany)
 }
 
 // one event trace of a single real participant; returns the driver
@@ -34,6 +35,16 @@ func genInstTraceOpt(r *rng, viol func(clause, sig, detail string), io instOpts)
 		powers[i] = int64(5 + r.intn(20))
 	}
 	powers[0] = int64(1 + r.intn(12)) // the subject: never more than a third on its own
+	if io.queued {
+		// one puppet holds more than a third (a weak quorum on its own): its queued round-1 votes can make the subject skip ahead
+		var rest int64
+		for i := range powers {
+			if i != 1 {
+				rest += powers[i]
+			}
+		}
+		powers[1] = rest*2/3 + int64(r.intn(5))
+	}
 	if io.skew {
 		for i := range powers {
 			powers[i] *= 1 << 30
@@ -121,11 +132,50 @@ func genInstTraceOpt(r *rng, viol func(clause, sig, detail string), io instOpts)
 		lastProg = pr
 		mon.afterEvent()
 	}
-	if err := d.start(); err != nil {
-		check(err, "start")
-		return d
+	if io.queued {
+		// votes of the puppets that arrive before the subject has begun: QUALITY, a PREPARE and a COMMIT(bottom) of round 0,
+		// justified votes of round 1, sometimes a DECIDE
+		v0 := values[r.intn(len(values))]
+		var qm []queuedMsg
+		pp := func() gpbft.ActorID { return puppets[r.intn(len(puppets))] }
+		if r.chance(80) {
+			qm = append(qm, queuedMsg{pp(), 0, gpbft.QUALITY_PHASE, values[r.intn(len(values))], nil})
+		}
+		if r.chance(70) {
+			qm = append(qm, queuedMsg{pp(), 0, gpbft.PREPARE_PHASE, v0, nil})
+		}
+		if r.chance(50) {
+			qm = append(qm, queuedMsg{pp(), 0, gpbft.COMMIT_PHASE, bottom, nil})
+		}
+		big := gpbft.ActorID(2) // the puppet with more than a third of the power
+		if r.chance(60) {
+			qm = append(qm, queuedMsg{pp(), 1, gpbft.CONVERGE_PHASE, v0, d.justify(0, gpbft.COMMIT_PHASE, bottom)})
+		}
+		if r.chance(70) {
+			if r.bool() {
+				qm = append(qm, queuedMsg{big, 1, gpbft.PREPARE_PHASE, v0, d.justify(0, gpbft.PREPARE_PHASE, v0)})
+			} else {
+				qm = append(qm, queuedMsg{big, 1, gpbft.PREPARE_PHASE, v0, d.justify(0, gpbft.COMMIT_PHASE, bottom)})
+			}
+		}
+		if r.chance(40) && !v0.IsZero() {
+			qm = append(qm, queuedMsg{pp(), 1, gpbft.COMMIT_PHASE, v0, d.justify(1, gpbft.PREPARE_PHASE, v0)})
+		}
+		if r.chance(15) && !v0.IsZero() {
+			qm = append(qm, queuedMsg{pp(), 0, gpbft.DECIDE_PHASE, v0, d.justify(uint64(r.intn(2)), gpbft.COMMIT_PHASE, v0)})
+		}
+		if err := d.startWithQueue(qm); err != nil {
+			check(err, "start-with-queue")
+			return d
+		}
+		check(nil, "start-with-queue")
+	} else {
+		if err := d.start(); err != nil {
+			check(err, "start")
+			return d
+		}
+		check(nil, "start")
 	}
-	check(nil, "start")
 	selfQueue := 0 // index into host.bcasts of the next own message not yet looped back
 	steps := 10 + r.intn(50)
 	mode := r.intn(3) // 0 cooperative, 1 mixed, 2 hostile
@@ -346,15 +396,17 @@ func runInstTraces(o *out, r *rng, thorough bool, pid string) {
 	for i := 0; i < n; i++ {
 		var local []violation
 		viol := func(clause, sig, detail string) { local = append(local, violation{Clause: clause, Signature: sig, Detail: detail}) }
-		d := genInstTrace(r, viol)
+		d := genInstTraceOpt(r, viol, instOpts{queued: pid == "C07" && i%5 == 4})
 		desc := map[string]any{"events": d.desc}
 		for _, v := range local {
 			if strings.HasPrefix(v.Signature, prefix) {
 				o.violate(v.Clause, v.Signature, desc, v.Detail)
 			}
 		}
-		o.coqCase(fmt.Sprintf("trace %d: %s", i, strings.Join(d.desc, " | ")),
-			fmt.Sprintf("trace_ok %s %s %s", d.cfgTerm(), d.ct.raw(d.input), cList(d.events)))
+		if d.queued {
+			o.Dist["traces-starting-with-queued-messages"]++
+		}
+		o.coqCase(fmt.Sprintf("trace %d: %s", i, strings.Join(d.desc, " | ")), d.traceTerm())
 		pr := d.p.Progress().Instant
 		o.count(pid+"-trace", strings.Join(d.events, ";"), (pr.Round > 0 || len(d.host.bcasts) > 2) && len(d.host.bcasts) >= 2)
 		o.Dist[fmt.Sprintf("final-phase-%s", pr.Phase)]++
